@@ -10,6 +10,7 @@ mod text;
 mod netprops;
 mod c13;
 mod c14;
+mod c16;
 mod c17;
 mod c18;
 
@@ -37,6 +38,7 @@ fn main() {
         "c13" => c13::run(&a),
         "c14" => c14::run_c14(&a),
         "c15" => c14::run_c15(&a),
+        "c16" => c16::run(&a),
         "c17" => c17::run(&a),
         "c18" => c18::run(&a),
         "c01" => wire::run_c01(&a),
